@@ -311,6 +311,9 @@ fn c05_tree(r: &Rose, rng: &mut Rng, q: &mut Q, rep: &mut Report, metamorphic: b
     if real != brute {
         rep.oracle("splits-exact", if real.starts_with("ok") { "set-differs" } else { "error" }, &format!("{case}\nsp\tparts"), &format!("reported {real} expected {brute}"));
     }
+    if let Some(m) = crate::sp::parts_view_mismatch(&tree) {
+        rep.oracle("splits-view", "partition_to_leaves", &format!("{case}\nsp\tparts"), &m);
+    }
     q.case(case.clone());
     q.push(format!("ar.load\t{}", arena_of(&tree)), Kind::Load);
     q.push("sp\tparts".into(), Kind::Exact(real.clone()));
@@ -665,6 +668,26 @@ fn pair_requests(a: &Rose, b: &Rose, rng: &mut Rng, q: &mut Q, rep: &mut Report,
                         }
                     }
                 }
+                // beyond the range in which a SQUARE of a difference is representable (2^-600: squares underflow to zero;
+                // 2^520: squares overflow) the weighted RF distance — a sum of absolute differences — is still exact, in the
+                // stand-alone function and in the report (the branch score legitimately under/overflows there: not compared)
+                for e in [-600i32, 520] {
+                    let f = 2f64.powi(e);
+                    let (mut x, mut y) = (fresh(a), fresh(b));
+                    x.rescale(f);
+                    y.rescale(f);
+                    rep.count("wrf_beyond_the_square_range");
+                    let ctx = format!("{case}\n# both trees rescaled by 2^{e}\nsp\twrf");
+                    let wantw = (bw as f64 / UNIT as f64) * f;
+                    match x.weighted_robinson_foulds(&y) {
+                        Ok(v) if v == wantw => {}
+                        other => rep.oracle("wrf-scale", "not-linear-beyond-the-square-range", &ctx, &format!("{other:?} expected {wantw:e}")),
+                    }
+                    match x.compare_topologies(&y) {
+                        Ok(c) if c.weighted_rf == wantw => {}
+                        other => rep.oracle("wrf-report", "not-linear-beyond-the-square-range", &ctx, &format!("{:?} expected weighted_rf {wantw:e}", other.map(|c| c.weighted_rf))),
+                    }
+                }
                 // zero against a reordering of itself
                 let ra = reorder(rng, a);
                 let z = real_wrf(&fresh(a), &fresh(&ra));
@@ -861,9 +884,12 @@ pub fn run_pairs(prop: &str, thorough: bool, seed: u64, driver: &str, rep: &mut 
                     if ls.len() >= 3 {
                         let n1 = rng.pick(&ls).clone();
                         let n2 = ls.iter().find(|x| **x != n1).unwrap().clone();
-                        let variant = look_alike_of(&mut rng, &n1);
-                        if !ls.contains(&variant) && !rose_leafset(&b).contains(&variant) {
-                            let map = |x: &str| -> String { if x == n2 { variant.clone() } else { x.to_string() } };
+                        // one case in four: two labels that READ as the same number ("7" / "07", "+7", "7.0", "7e0") — distinct
+                        // strings are distinct taxa and have one position in the sorted index, whatever order the trees list them in
+                        let numeric = rng.chance(1, 4);
+                        let variant = if numeric { rng.pick(&["07", "+7", "7.0", "7e0", "007", "0x7", "７"]).to_string() } else { look_alike_of(&mut rng, &n1) };
+                        if !ls.contains(&variant) && !rose_leafset(&b).contains(&variant) && !(numeric && (ls.contains(&"7".to_string()) || rose_leafset(&b).contains("7"))) {
+                            let map = |x: &str| -> String { if x == n2 { variant.clone() } else if numeric && x == n1 { "7".to_string() } else { x.to_string() } };
                             a = rename(&a, &map);
                             b = rename(&b, &map);
                             rep.count("look_alike_leaf_labels");
